@@ -1278,6 +1278,12 @@ class Mttkrps(Op):
                             out.append(dict(base, U=u2, bad="factor columns", pending=True))
                 out.append(dict(base, U=Us[:-1], bad="list length", pending=True))
                 out.append(dict(base, U=Us + [Us[-1]], bad="list length", pending=True))
+                # the row counts of two factors wrong, their product right
+                for ka, kb in itertools.combinations(range(N), 2):
+                    for x, y in equal_products(s[ka], s[kb])[:4]:
+                        u2 = [list(u) for u in Us]
+                        u2[ka][0], u2[kb][0] = x, y
+                        out.append(dict(base, U=u2, bad="factor rows, equal product"))
         out.append({"shape": [3], "U": [[3, 2]], "kt": False, "bad": "order < 2"})
         return out
 
